@@ -553,15 +553,15 @@ theorem below_post (hpost : c.depthFirst = true) (rp : List Name) (readable : Bo
     rw [pop_post c ev hpost _ fs d ds A k0 hlen hd (Or.inl (by omega))]
     simp [andThen]
 
-/-- the one configuration in which walkdir loses post-order: a starting point that is a link to a
-    directory, followed only because it is a starting point (-H) -/
+/-- the one configuration in which walkdir alone loses post-order: a starting point that is a link
+    to a directory, followed only because it is a starting point (-H) -/
 def HRootLink (n : Node α) : Prop :=
   c.follow = .roots ∧ ∃ nm r a kids, n = .dir nm true r a kids
 
 mutual
 theorem node_post (hpost : c.depthFirst = true) (n : Node α) (rp : List Name)
     (fs : List (Frame α)) (ds : List (Ent α)) (A : Acc σ) (hlen : fs.length = ds.length)
-    (hmax : fs.length ≤ c.maxDepth) (hH : fs.length = 0 → ¬ HRootLink c n) :
+    (hmax : fs.length ≤ c.maxDepth) :
     stepA c ev (handleEntry (optsOf c) ⟨none, fs, ds⟩ rp fs.length n) A =
       andThen (refNode c ev rp fs.length n A) (loopA c ev ⟨none, fs, ds⟩) := by
   match n with
@@ -612,14 +612,16 @@ theorem node_post (hpost : c.depthFirst = true) (n : Node α) (rp : List Name)
       have hv : (⟨⟨rp, fs.length, .dir nm true r a kids, false⟩, fs.length == 0 && c.follow != .never, c.follow⟩ : Visit α)
           = mkVisit c rp fs.length (.dir nm true r a kids) := by
         simp [mkVisit, hna]
-      have hD : (fs.length == 0 && c.follow != .never) = false := by
-        cases hD' : (fs.length == 0 && c.follow != .never)
-        · rfl
-        · exfalso
-          simp only [Bool.and_eq_true, beq_iff_eq, bne_iff_ne] at hD'
-          apply hH hD'.1
-          refine ⟨?_, nm, r, a, kids, rfl⟩
-          cases hfc : c.follow <;> simp_all
+      by_cases hD' : (fs.length == 0 && c.follow != .never) = true
+      · -- a starting point that is a link to a directory under -H: pushed and deferred like a directory
+        have hf : c.follows fs.length = true := by rw [follows_iff]; simp [hD']
+        simp only [hD', if_true, hf, Bool.not_true, Bool.false_or, Bool.true_and]
+        have hv' : visitOf c (⟨rp, fs.length, .dir nm true r a kids, false⟩ : Ent α) = mkVisit c rp fs.length (.dir nm true r a kids) := by
+          simp only [mkVisit, visitOf, hna, Bool.and_false]
+        rw [← hv', stepA_cont]
+        have hk := fun A' h => kids_post hpost kids rp fs ⟨rp, fs.length, .dir nm true r a kids, false⟩ ds A' hlen rfl h
+        exact below_post c ev hpost rp r kids fs _ ds A _ hlen rfl hk
+      have hD : (fs.length == 0 && c.follow != .never) = false := by simpa using hD'
       have hf : c.follows fs.length = false := by rw [follows_iff]; simp [hna, hD]
       simp only [hD, Bool.false_eq_true, if_false]
       refine (stepA_entry2 c ev _ _ _ _ _ A).trans ?_
@@ -644,7 +646,7 @@ theorem kids_post (hpost : c.depthFirst = true) (kids : List (Node α)) (rp : Li
     simp only [step, optsOf_cf, hpost, Bool.true_and, List.length_cons, decide_eq_true_eq, hnl, if_false, optsOf_max,
       h', Bool.false_eq_true]
     have := node_post hpost n (n.name :: rp) (⟨rp, ns, false⟩ :: fs) (d :: ds) A (by simp [hlen])
-      (by simpa using hmax) (by simp)
+      (by simpa using hmax)
     simp only [List.length_cons] at this
     rw [this, refKids]
     unfold andThen
@@ -653,14 +655,15 @@ theorem kids_post (hpost : c.depthFirst = true) (kids : List (Node α)) (rp : Li
     · exact kids_post hpost ns rp fs d ds _ hlen hd hmax
 end
 
-/-- Post-order: the same, except for a starting point that is a link to a directory under -H. -/
-theorem processRoot_post (hpost : c.depthFirst = true) (root : Node α) (hH : ¬ HRootLink c root) (acc : σ) :
+/-- Post-order: the same, for every starting point (since `process_dir` walks `LINK/` for a link to
+    a directory under -H, that configuration is no exception any more). -/
+theorem processRoot_postAny (hpost : c.depthFirst = true) (root : Node α) (acc : σ) :
     processRoot c ev root acc =
       (let r := refRoot c ev root ⟨acc, 0, 0⟩
        resOf r.1 r.2) := by
   show loopA c ev (MState.init root) ⟨acc, 0, 0⟩ = _
   rw [loopA_eq]
-  have := node_post c ev hpost root [] [] [] ⟨acc, 0, 0⟩ rfl (Nat.zero_le _) (fun _ => hH)
+  have := node_post c ev hpost root [] [] [] ⟨acc, 0, 0⟩ rfl (Nat.zero_le _)
   simp only [List.length_nil] at this
   simp only [step, MState.init]
   rw [this, refRoot]
@@ -669,6 +672,13 @@ theorem processRoot_post (hpost : c.depthFirst = true) (root : Node α) (hH : ¬
   · simp_all
   · rw [loopA_nil_post c ev _ hpost]
     simp_all
+
+/-- (the form with the former exception as an unused hypothesis, kept for its callers) -/
+theorem processRoot_post (hpost : c.depthFirst = true) (root : Node α) (_hH : ¬ HRootLink c root) (acc : σ) :
+    processRoot c ev root acc =
+      (let r := refRoot c ev root ⟨acc, 0, 0⟩
+       resOf r.1 r.2) :=
+  processRoot_postAny c ev hpost root acc
 
 end
 end FuModel.Find.Walk
